@@ -188,6 +188,9 @@ func (g *Gen) Genesis() Genesis {
 		}
 		gen.Vals = append(gen.Vals, GVal{Op: perm[i], Key: perm[i], Tokens: tok})
 	}
+	if g.Cfg.Mode == "gov" {
+		gen.GovAdmin = true // the default configuration: the admin is the x/gov account
+	}
 	g.G = gen
 	return gen
 }
@@ -211,7 +214,7 @@ func (g *Gen) pickTarget(s Snap) int {
 	unb := g.classOps(s, func(o OpInfo) bool { return o.Exists && o.Status != 3 && !o.Jailed })
 	pend := g.classOps(s, func(o OpInfo) bool { return o.Pending })
 	unk := g.classOps(s, func(o OpInfo) bool { return !o.Exists && !o.Pending })
-	envelope := g.Cfg.Mode == "envelope" || g.Cfg.Mode == "calm"
+	envelope := g.Cfg.Mode == "envelope" || g.Cfg.Mode == "calm" || g.Cfg.Mode == "gov"
 	if !envelope && g.downKey >= 0 && g.downKey < NOPS && r.P(12) {
 		// the validator that is being kept absent: admin operations around (and in the very block of) its jailing
 		return g.downKey
@@ -348,7 +351,7 @@ func (g *Gen) msgCreate(op int, s Snap) Msg {
 		}
 		g.createdOnce[op] = true
 	}
-	if g.Cfg.Mode == "envelope" && r.P(10) {
+	if (g.Cfg.Mode == "envelope" || g.Cfg.Mode == "gov") && r.P(10) {
 		// re-registering the consensus key of a validator that was removed and is still unbonding (refused)
 		gone := g.classOps(s, func(o OpInfo) bool { return o.Exists && (o.Status != 3 || o.Tokens == 0) })
 		if len(gone) > 0 {
@@ -444,7 +447,7 @@ func (g *Gen) GenTx(s Snap, height int64) Tx {
 		g.queued = g.queued[1:]
 		return tx
 	}
-	envelope := g.Cfg.Mode == "envelope" || g.Cfg.Mode == "calm"
+	envelope := g.Cfg.Mode == "envelope" || g.Cfg.Mode == "calm" || g.Cfg.Mode == "gov"
 	kind := r.W(34, 12, 6, 14, 6, 8, 3, 6, 3, 3, 5)
 	if envelope {
 		kind = r.W(40, 12, 6, 18, 6, 8, 2, 4, 2, 1, 1)
